@@ -31,6 +31,12 @@ var fixtureExpects = map[string]fixtureExpect{
 		[]string{"par2.callCount:par2.bump"}, []string{"GLOBALS:par2.table"}},
 	"DEEPEQ": {"DEEPEQ", func(w *World, r *Report) { ruleDEEPEQ(w, r, "par2") },
 		[]string{"par2.deepMismatch:DeepEqual#0"}, []string{"par2.deepSame:DeepEqual#0"}},
+	"ERRKEEP": {"ERRKEEP", func(w *World, r *Report) { ruleERRKEEP(w, r) },
+		[]string{"par2.writeOverwriting$1:store(err)#0"}, []string{"par2.writeKeeping$1:store(err)#0"}},
+	"EXTCUT": {"EXTCUT", func(w *World, r *Report) { ruleEXTCUT(w, r) },
+		[]string{"par2.baseByCutset:strings.TrimRight#0"}, nil},
+	"FMTCONST": {"FMTCONST", func(w *World, r *Report) { ruleFMTCONST(w, r) },
+		[]string{"par2.nameByFormat:fmt.Sprintf#0"}, []string{"par2.nameByArg:fmt.Sprintf#0"}},
 }
 
 var fixtureWorld *World
